@@ -148,6 +148,22 @@ def check(scratch, nat, a, t0):
         info["paths"][profile] += sum(len(s.paths) for s in asum)
         for s in asum:
             pf += L.assign_check(s, profile, qs, timeout_ms, V.seed())
+        # the same on string elements: `a[k] += s` must APPEND (concatenation does not commute)
+        ssum = [L.summarize_str_assign(ak, n_, k_) for n_ in range(1, 3) for k_ in range(n_)]
+        ns, misms = L.str_assign_validate(ssum, nat.eval_raw, release)
+        info["validation_vectors"][profile + ":element-assignment-str"] = ns
+        if misms:
+            raise V.Inconclusive("engine B disagrees with the real string element assignment on %d of %d vectors (%s), first: %r" % (len(misms), ns, profile, misms[0]))
+        for s in ssum:
+            pf += L.str_assign_check(s, profile, qs, timeout_ms, V.seed())
+        # `a == b` on lists (Primitive::equals, vector arm): equal iff same length and equal elements
+        esum = [L.summarize_list_eq(lk, n_, m_, nested=nst) for nst in (False, True) for n_ in range(3) for m_ in range(3)]
+        ne, misme = L.list_eq_validate(esum, nat.eval_raw, release)
+        info["validation_vectors"][profile + ":list-equality"] = ne
+        if misme:
+            raise V.Inconclusive("engine B disagrees with the real list equality on %d of %d vectors (%s), first: %r" % (len(misme), ne, profile, misme[0]))
+        for s in esum:
+            pf += L.list_eq_check(s, profile, qs, timeout_ms, V.seed())
         confirm(pf, nat, release)
         findings += pf
         log("  [%s] %d obligations so far, %d candidate findings" % (profile, qs.obligations, len(pf)))
@@ -202,7 +218,7 @@ def report(a, findings, qs, info, t0):
                          "sequence model: /verif/mirsym/listkernels.py oracle(), /verif/mirsym/bridgekernels.py expected_result()",
                          "the callback-bridge driver loop of Function::run (6 lines) is replicated in bridgekernels._drive and in the native harness"],
         "functions_encoded": info["functions"], "paths": info["paths"],
-        "bounds": "list methods len, push, remove, reverse, clear, clone, index_of, join (other list / the receiver itself): receiver of 0..%d elements, argument list of 0..%d elements, every element and every index/value argument a full-width symbolic i32 (elements of kind int only); one operation from an arbitrary state (inductive step). map / filter: receiver of 0..%d elements, the built-in plus the three bridge methods from their MIR, the driver loop of Function::run replicated, callback results arbitrary (int / bool). Index read a[i] (vec_op with the index in a local variable of kind int / bigint / byte, any value): the result is a reference to element i of the same list iff 0 <= i < len, else the instruction fails. Compound element assignment a[k] op= v (bin_op_assign through an element pointer, op in += -= *= /= %%=, int elements and value): position k holds e[k] op v with the operands in this order, other elements untouched, the value of the assignment is the new element, a failing assignment changes nothing (which operand values make the arithmetic fail is C05/C17). Maps, plain index assignment (`mut`), `==`, longer lists, other element kinds, callbacks that fail or mutate the list outside" % (L.NMAX.get(a.tier, 3), L.MMAX.get(a.tier, 2), BR.NMAX.get(a.tier, 3)),
+        "bounds": "list methods len, push, remove, reverse, clear, clone, index_of, join (other list / the receiver itself): receiver of 0..%d elements, argument list of 0..%d elements, every element and every index/value argument a full-width symbolic i32 (elements of kind int only); one operation from an arbitrary state (inductive step). map / filter: receiver of 0..%d elements, the built-in plus the three bridge methods from their MIR, the driver loop of Function::run replicated, callback results arbitrary (int / bool). Index read a[i] (vec_op with the index in a local variable of kind int / bigint / byte, any value): the result is a reference to element i of the same list iff 0 <= i < len, else the instruction fails. Compound element assignment a[k] op= v (bin_op_assign through an element pointer, op in += -= *= /= %%=, int elements and value): position k holds e[k] op v with the operands in this order, other elements untouched, the value of the assignment is the new element, a failing assignment changes nothing (which operand values make the arithmetic fail is C05/C17). The same on string elements for `+=` (append, not prepend). List equality `a == b` (Primitive::equals, lists of 0..2 ints each, and one level of nesting [[..]] == [[..]]): equal iff same length and equal elements. Maps, plain index assignment (`mut`), nested lists, longer lists, other element kinds, callbacks that fail or mutate the list outside" % (L.NMAX.get(a.tier, 3), L.MMAX.get(a.tier, 2), BR.NMAX.get(a.tier, 3)),
         "vacuity_witnesses": info["witnesses"],
         "solver_time_s": round(qs.solver_s, 2),
         "samples": qs.samples[:8] + [fdict(f) for f in list(new.values())[:4]],
